@@ -26,6 +26,9 @@ COMMUNITY = "/opt/veriftools/tla/CommunityModules-deps.jar"
 
 _scratch = None
 T0 = time.time()
+TIER = "quick"      # set by bin/check
+SEED = 1
+REPLAY = None       # the content of the replay file when bin/check --replay is used
 
 
 class Inconclusive(Exception):
@@ -238,6 +241,17 @@ class Verdict:
     def finish(self):
         for k, n in sorted(self.known_hits.items()):
             print("KNOWN-FINDING: property=%s key=%s %s (%d cases this run)" % (self.prop, k, self.kf[k], n))
+        if REPLAY is not None:
+            # replay mode: the run used the tier and seed of the recorded violation; did the same kind of violation recur?
+            head = REPLAY.get("what", "").split(":")[0]
+            same = [x for x in self.violations if x[1].split(":")[0] == head]
+            if same:
+                print("REPLAY reproduced: %s" % same[0][1][:300])
+                self.violations = same
+            else:
+                print("REPLAY not reproduced: no violation of kind '%s' (tier %s, seed %s); %d other violations"
+                      % (head, TIER, SEED, len(self.violations)))
+                return 0
         if not self.violations:
             return 0
         d = os.path.join(VERIF, "replays", self.prop)
@@ -246,7 +260,8 @@ class Verdict:
         for i, (key, what, obj) in enumerate(self.violations[:20]):
             path = os.path.join(d, "viol-%d-%d.json" % (int(T0), i))
             with open(path, "w") as f:
-                json.dump({"property": self.prop, "classifier": key, "what": what, "case": obj}, f, indent=1, sort_keys=True)
+                json.dump({"property": self.prop, "classifier": key, "what": what, "case": obj, "tier": TIER, "seed": SEED},
+                          f, indent=1, sort_keys=True)
             if what not in seen or i == 0:
                 print("VIOLATION property=%s replay=%s  # %s" % (self.prop, path, what[:300]))
             seen.add(what)
